@@ -21,7 +21,7 @@ var Metas = map[string]*Meta{
 	"C06": {
 		Level: "exploration",
 		Rule: "A run draws a format, a size class (tiny<=14 B, small, medium 4-10 KiB, large 70-200 KiB), an input kind (generated well-formed text, mutated, raw noise over the format's delimiters) and compares, against the one-shot in-memory decode: " +
-			"(line lengths next to multiples of the 4096-byte bufio buffer and to 64 KiB are generated on purpose, in the thorough tier rarely a line of 1-1.5 MiB; mutations include byte order marks, NUL and bytes >= 0x80; 4% of inputs start with magic bytes of other formats; 12% of files get a name with a conventional or awkward meaning such as a single dash) every partition of inputs <= 14 bytes x both EOF placements, every single cut (<= 400 B), every pair of cuts (<= 60 B), 5-8 sampled delivery plans (1-byte, uniform, geometric, delimiter-hunting, buffer-boundary, whole; stalls; EOF with data); the CRLF rendering of well-formed text under three plans; File (every iterator value ranged twice) on plain/.gz/multi-member .gz copies, reached also through ./, absolute, sub/../ and symlink spellings, rarely on 11-14 MiB files, and on a named pipe (size 0, fed by a writer); unopenable paths, including an existing file while the process has no descriptor left; two decodes of different inputs advanced in lock-step. " +
+			"(line lengths next to multiples of the 4096-byte bufio buffer and to 64 KiB are generated on purpose, in the thorough tier rarely a line of 1-1.5 MiB; mutations include byte order marks, NUL and bytes >= 0x80; 4% of inputs start with magic bytes of other formats; 12% of files get a name with a conventional or awkward meaning such as a single dash) every partition of inputs <= 14 bytes x both EOF placements, every single cut (<= 400 B), every pair of cuts (<= 60 B), 5-8 sampled delivery plans (1-byte, uniform, geometric, delimiter-hunting, buffer-boundary, whole; stalls; EOF with data); the CRLF rendering of well-formed text under three plans; File (every iterator value ranged twice) on plain/.gz/multi-member .gz copies, reached also through ./, absolute, sub/../ and symlink spellings, rarely on 11-14 MiB files, and on a named pipe (size 0, fed by a writer); unopenable paths, including an existing file while the process has no descriptor left; two decodes of different inputs advanced in lock-step. Every comparison is made on the items as rendered when yielded and again on the same record values rendered after the iteration ended (clause suffix .retained: records a consumer kept). " +
 			"distinct_nontrivial counts distinct (format, input, delivery sequence actually executed | storage configuration) triples for sampled plans and single cuts (exhaustively enumerated partitions and pairs are counted separately under probes.exhaustive/*; a case is non-trivial iff the reference decode did not panic).",
 		Assumptions: []string{
 			"the one-shot decode through bytes.Reader is the reference; the check is differential and never asserts what the right decode is (C01-C05, C11 are not decided here)",
@@ -69,7 +69,7 @@ var Metas = map[string]*Meta{
 	},
 	"C18": {
 		Level: "fault_enumeration",
-		Rule: "A run draws one case: an iterator (Reader of a format under a delivery plan, in 60% with an injected read fault; File on plain / .gz / torn .gz / directory / missing path; PreOrder/PostOrder of a generated tree; trie ForEach with simulator-chosen child order; CanonicalSubsequences) and its environment, records the uninterrupted run x_0..x_{N-1}, then stops at EVERY position j in [0,N) in each of three consumer styles (direct call with a counting yield, for-range + break, iter.Pull + stop). Iterators that can be walked again (File, traversals, ForEach, CanonicalSubsequences) use ONE iterator value for all runs of the case and are run to the end again after every stop (a stop must leave nothing behind); after the stops two walks are kept alive at the same time (iter.Pull, for CanonicalSubsequences over different sequences), and 4% of File cases do 300 stopped walks in a row under a descriptor budget (RLIMIT_NOFILE=200, collector off) before a last full walk. 35% of the injected read faults are transient (one error, then the rest of the data arrives); error values come from the same palette as in C07; 3% of reader inputs start with gzip magic or a byte order mark; 0.04% of runs are long iterations (66 000-140 000 items) (also runs of malformed SAM lines) whose sampled stop positions include the neighbours of every power of two and of ten; 0.08% of File cases use a 9-11 MiB file. " +
+		Rule: "A run draws one case: an iterator (Reader of a format under a delivery plan, in 60% with an injected read fault; File on plain / .gz / torn .gz / directory / missing path; PreOrder/PostOrder of a generated tree (4% of them spines of 30-300 levels with side leaves, so that explicit stacks grow past 32/64/128/256 entries); trie ForEach with simulator-chosen child order; CanonicalSubsequences) and its environment, records the uninterrupted run x_0..x_{N-1}, then stops at EVERY position j in [0,N) in each of three consumer styles (direct call with a counting yield, for-range + break, iter.Pull + stop). Iterators that can be walked again (File, traversals, ForEach, CanonicalSubsequences) use ONE iterator value for all runs of the case and are run to the end again after every stop (a stop must leave nothing behind); after the stops two walks are kept alive at the same time (iter.Pull, for CanonicalSubsequences over different sequences), and 4% of File cases do 300 stopped walks in a row under a descriptor budget (RLIMIT_NOFILE=200, collector off) before a last full walk. 35% of the injected read faults are transient (one error, then the rest of the data arrives); error values come from the same palette as in C07; 3% of reader inputs start with gzip magic or a byte order mark; 0.04% of runs are long iterations (66 000-140 000 items) (also runs of malformed SAM lines) whose sampled stop positions include the neighbours of every power of two and of ten; 0.08% of File cases use a 9-11 MiB file. " +
 			"distinct_nontrivial counts distinct cases with N >= 1 (by content hash of the case); evaluations counts iterator executions (1 + 3N per case, 1 + 6N for re-walkable iterators).",
 		Assumptions: []string{
 			"the uninterrupted run in the same environment is the reference for 'leading items'",
